@@ -53,7 +53,7 @@ ASSUMPTIONS = [
 ]
 FLOORS = {"quick": {"evaluations": 500, "stream_comparisons": 1200, "success_replies": 200,
                     "hostile_cases": 100, "v1_cases": 40, "distinct": 100,
-                    "chunk_contract_evaluations": 1000},
+                    "chunk_contract_evaluations": 1000, "transactions_of_16_MiB_or_more": 1},
           "thorough": {"evaluations": 30000, "stream_comparisons": 60000,
                        "success_replies": 10000, "hostile_cases": 5000, "v1_cases": 2000,
                        "distinct": 2000}}
@@ -85,11 +85,16 @@ def gen_case(rng, spec, i):
     c["form"] = form
     c["seed"] = rng.getrandbits(48)
     c["spec"] = {k: spec[k] for k in ("max_in", "max_out", "big", "sized_16m") if k in spec}
+    if spec.get("sized_16m") and i == 7 and form == "hash" and not v1:
+        form = c["form"] = "legacy"     # (the one 16 MiB case of the shard always takes place)
     if form != "hash" and i % 40 == 7:
         marks = [2 ** 16, 2 ** 16, 0xffff, 2 ** 17]
+        off = rng.choice([-8, -7, -1, 0, 1, 2, 9])
         if spec.get("sized_16m") and i == 7:
+            # (at or above 2^24: beyond any limit somebody may have made up below it)
             marks = [2 ** 24]
-        c["sized_tx"] = rng.choice(marks) + rng.choice([-8, -7, -1, 0, 1, 2, 9])
+            off = abs(off) % 10
+        c["sized_tx"] = rng.choice(marks) + off
         if c["sized_tx"] > 2 ** 20:
             # (64-byte HID reports make megabytes slow: over the TCP transport)
             c["platform"] = rng.choice(["tcp", "sgx"])
@@ -401,6 +406,8 @@ def run_case(acc, c, spec, stacks):
         run_case(acc, dict(c["same_tx_as_previous"]), spec, stacks)
         prev = stacks.get(("prev", key))
     b = build(c, spec, prev[1] if prev else None)
+    if "tx" in b and len(b["tx"]["raw"]) >= 2 ** 24:
+        acc.count("transactions_of_16_MiB_or_more")
     if c.get("same_tx_as_previous"):
         acc.count("same_tx_asked_again")
         if b.get("near_copy"):
